@@ -239,6 +239,18 @@ def run(tier, seed):
         perfect("alignment.percentage_correct_segments", al.percentage_correct_segments, (ts,), meta=m)
         perfect("alignment.percentage_correct_segments", al.percentage_correct_segments, (ts,), {"duration": float(ts[-1]) + 1.0}, m)
         perfect("alignment.evaluate", al.evaluate, (ts,), meta=m)
+    # "scores whose reference has nothing to compare are 0 by documented convention"
+    for it in range(6):
+        civ, _ = nd_chords(rng)
+        for tagname, pool in (("chord.evaluate[reference all X]", ["X"]), ("chord.evaluate[reference outside maj/min/7]", ["C:sus4", "D:dim", "F:aug", "G:hdim7", "A:sus2"])):
+            labs_c = [rng.choice(pool) for _ in civ]
+            r = call(c.evaluate, civ, labs_c, civ.copy(), list(labs_c))
+            log.add("perfect2", tagname, r, r, {"intervals": civ.tolist(), "labels": labs_c, "mode": "copy"})
+        siv, _ = nd_segments(rng, 0.25)
+        one = [rng.choice("abc")] * len(siv)
+        for kw in ({"frame_size": 0.25}, {"frame_size": 0.25, "marginal": True}):
+            r = call(s.nce, siv, one, siv.copy(), list(one), **kw)
+            log.add("perfect2", "segment.nce[one label]", r, r, {"intervals": siv.tolist(), "labels": one, "kw": str(kw), "mode": "copy"})
     # fixed witness of the recorded finding (soft reward interpolated across a pitchless-to-pitched transition)
     w_t, w_f, w_r = np.array([0.0, 2.0 / 128, 4.0 / 128]), np.array([0.0, 440.0, 440.0]), np.array([0.0, 0.5, 1.0])
     r = call(me.melody.evaluate, w_t, w_f, w_t.copy(), w_f.copy(), ref_reward=w_r, hop=1.0 / 128)
